@@ -501,11 +501,13 @@ func IsProbablyVisible(node *html.Node) bool {
 
 	// Have to null-check node.style and node.className.indexOf to deal
 	// with SVG and MathML nodes. Also check for "fallback-image" so that
-	// Wikimedia Math images are displayed
+	// Wikimedia Math images are displayed. That exception is for the images
+	// only: text inside an aria-hidden element stays hidden whatever its class.
+	isFallbackImage := dom.TagName(node) == "img" && strings.Contains(className, "fallback-image")
 	return displayStyle != "none" &&
 		!dom.HasAttribute(node, "hidden") &&
 		!rxVisibilityHidden.MatchString(styleAttr) &&
-		(nodeAriaHidden == "" || nodeAriaHidden != "true" || strings.Contains(className, "fallback-image"))
+		(nodeAriaHidden == "" || nodeAriaHidden != "true" || isFallbackImage)
 }
 
 // GetDisplayStyle returns the default "display" in style property for the specified node.
